@@ -13,7 +13,7 @@ use std::io::Write as _;
 use std::sync::atomic::{AtomicU64, Ordering};
 use vchecks::common::*;
 use vchecks::strip_sys::*;
-use vexplore::bfs::{self, Limits, System};
+use vexplore::bfs::{self, Limits};
 use vexplore::evidence::*;
 use vexplore::util::*;
 use vmodel::strip::StripModel;
@@ -216,6 +216,48 @@ fn main_check(ctx: &Ctx) -> Outcome {
         }
     });
     out.push_part(json!({"system":"StripStr::strip_next/chunk + strip_str one-shot","strings":strs.len(),"max_chars":n_str,"char_alphabet":chars.len(),"start_states":states_str.len()}));
+
+    // (4) every character of the Basic Multilingual Plane (and one per 4-byte lead) inside and
+    //     after every kind of sequence: ST (0x9C) and the other C1 values occur as continuation
+    //     bytes of ordinary characters, e.g. U+2705 = E2 9C 85
+    let prefixes: [&str; 9] = ["", "\x1b", "\x1b[", "\x1b[1", "\x1b]", "\x1bP", "\x1bP1q", "\x1b_", "\x1b "];
+    let mut cps: Vec<char> = (0x80u32..=0xFFFF).filter_map(char::from_u32).collect();
+    for lead in [0x10000u32, 0x1F600, 0x1F705, 0x40000, 0x80000, 0xC0000, 0x100000, 0x10FFFF] {
+        cps.extend(char::from_u32(lead));
+    }
+    let n_bmp = cps.len();
+    cps.par_iter().for_each(|&ch| {
+        for pre in prefixes {
+            let input = format!("{pre}{ch}m\u{7}x\x1b\\y");
+            evals.fetch_add(2, Ordering::Relaxed);
+            if let Err((sys, m)) = guard(|| oneshot_str(&input)).unwrap_or_else(|p| Err(("strip_str".to_string(), p))) {
+                let mut v = viol.lock().unwrap();
+                if v.len() < 200 {
+                    v.push(finding(&sys, &clause_of(&m), vec![hex(input.as_bytes())], m, json!({"kind":"oneshot-str","input":hex(input.as_bytes())})));
+                }
+            }
+            if let Err((sys, m)) = guard(|| oneshot_bytes(input.as_bytes())).unwrap_or_else(|p| Err(("strip_bytes/streams".to_string(), p))) {
+                let mut v = viol.lock().unwrap();
+                if v.len() < 200 {
+                    v.push(finding(&sys, &clause_of(&m), vec![hex(input.as_bytes())], m, json!({"kind":"oneshot-bytes","input":hex(input.as_bytes())})));
+                }
+            }
+            // and split between the prefix and the character through the incremental text API
+            let (mut imp, mut model) = (StripStr::new(), StripModel::default());
+            let r = guard(|| {
+                run_strip_str(&mut imp, &mut model, pre)?;
+                run_strip_str(&mut imp, &mut model, &input[pre.len()..])
+            })
+            .and_then(|r| r);
+            if let Err(m) = r {
+                let mut v = viol.lock().unwrap();
+                if v.len() < 200 {
+                    v.push(finding("StripStr::strip_next/chunk", &clause_of(&m), vec![hex(pre.as_bytes()), hex(input[pre.len()..].as_bytes())], m, json!({"kind":"oneshot-str","input":hex(input.as_bytes())})));
+                }
+            }
+        }
+    });
+    out.push_part(json!({"system":"every BMP character after each of 9 sequence prefixes (strip_str, strip_bytes, streams, StripStr split)","characters":n_bmp,"prefixes":prefixes.len()}));
 
     let mut v = viol.into_inner().unwrap();
     v.sort_by(|a, b| (a.case.iter().map(|c| c.len()).sum::<usize>(), a.key()).cmp(&(b.case.iter().map(|c| c.len()).sum::<usize>(), b.key())));
